@@ -177,10 +177,30 @@ func (ip *Interp) materialise(g *strSeg) []*Term {
 	}
 	ts := ip.ts
 	t := g.num
+	signed := g.signed
+	// work at the narrowest width that holds the value: digit extraction by division is
+	// much cheaper for the solver on 8/16-bit vectors than on 64-bit ones
+	switch {
+	case t.op == OpSExt && signed:
+		t = t.a
+	case t.op == OpZExt:
+		t = t.a
+		signed = false
+	default:
+		if _, hi, ok := urange(t); ok && hi <= mask(t.w)>>1 {
+			signed = false
+			for _, nw := range []int{8, 16, 32} {
+				if nw < int(t.w) && hi <= mask(uint8(nw)) {
+					t = ts.Extract(t, nw-1, 0)
+					break
+				}
+			}
+		}
+	}
 	w := int(t.w)
 	neg := false
 	abs := t
-	if g.signed {
+	if signed {
 		if ip.ex.Branch(ts.Cmp(OpSlt, t, Const(w, 0))) {
 			neg = true
 			abs = ts.Neg(t) // two's complement magnitude, correct as unsigned also for MinInt
